@@ -56,51 +56,42 @@ Section Text.
   Qed.
 
   (* ---------------------------------------------------------------- strings *)
-  (* the one list that does not survive: a single item spelled None / Auto in any case (an identifier, so unquoted) *)
-  Definition strings_dom (l:list str) : bool :=
-    match l with
-    | [s] => negb (eqs (lowers s) (s_ "none")) && negb (eqs (lowers s) (s_ "auto"))
-    | _ => true
-    end.
-
   Lemma strings_words_values l : map wv (map string_word l) = l.
   Proof.
     induction l as [|s l IH]; [reflexivity|]. cbn [map]. rewrite IH. f_equal.
-    unfold string_word. destruct (Parser.is_ident s); reflexivity.
+    unfold string_word. destruct (Parser.is_ident s && negb (none_or_auto s)); reflexivity.
   Qed.
   Lemma map_res_strings l : Conv.map_res strings_item (map VStr l) = Ok (map string_word l).
   Proof.
     induction l as [|s l IH]; [reflexivity|]. cbn [map Conv.map_res strings_item bind]. rewrite IH. reflexivity.
   Qed.
-  Lemma string_word_plain s what :
-    Parser.is_plain what [string_word s] = true -> eqs (lowers s) what = true.
+  (* an item spelled None / Auto is written quoted: the written words are never the plain None / Auto *)
+  Lemma string_word_not_plain s what : (what = s_ "none" \/ what = s_ "auto") ->
+    Parser.is_plain what [string_word s] = false.
   Proof.
-    unfold Parser.is_plain, string_word. destruct (Parser.is_ident s); cbn; [auto|discriminate].
+    intro W. unfold Parser.is_plain, string_word.
+    destruct (Parser.is_ident s && negb (none_or_auto s)) eqn:E; [|reflexivity].
+    apply andb_true_iff in E. destruct E as [_ E]. apply negb_true_iff in E. unfold none_or_auto in E.
+    apply orb_false_iff in E. destruct E as [E1 E2]. cbn [isq uw wq wv negb andb].
+    destruct W as [-> | ->]; assumption.
   Qed.
-  Lemma strings_not_plain l what : (what = s_ "none" \/ what = s_ "auto") -> strings_dom l = true ->
+  Lemma strings_not_plain l what : (what = s_ "none" \/ what = s_ "auto") ->
     Parser.is_plain what (map string_word l) = false.
   Proof.
-    intros W D. destruct l as [|s [|s2 l]]; try reflexivity.
-    cbn [map]. destruct (Parser.is_plain what [string_word s]) eqn:E; [|reflexivity].
-    apply string_word_plain in E. cbn [strings_dom] in D. apply andb_true_iff in D. destruct D as [D1 D2].
-    destruct W as [-> | ->]; rewrite E in *; discriminate.
+    intros W. destruct l as [|s [|s2 l]]; try reflexivity. cbn [map]. apply string_word_not_plain. exact W.
   Qed.
   Lemma map_vstr_values l : map (fun w => VStr (wv w)) (map string_word l) = map VStr l.
   Proof. rewrite <- (strings_words_values l) at 2. rewrite !map_map. reflexivity. Qed.
 
-  Lemma rt_strings l : strings_dom l = true -> roundtrip pe ex TyStrings opt mw (VList (map VStr l)).
+  (* every list of strings round-trips *)
+  Lemma rt_strings l : roundtrip pe ex TyStrings opt mw (VList (map VStr l)).
   Proof.
-    intro D. exists (map string_word l). split.
+    exists (map string_word l). split.
     - cbn [ty_as_words strings_as_words]. apply map_res_strings.
     - cbn [ty_from_words]. unfold strings_from_words, Parser.is_plain_none, Parser.is_plain_auto.
       rewrite (strings_not_plain l (s_ "none")), (strings_not_plain l (s_ "auto")) by auto.
       rewrite map_vstr_values. reflexivity.
   Qed.
-
-  Lemma strings_none_refuted :
-    exists l ws, ty_as_words TyStrings opt mw (VList (map VStr l)) = Ok ws
-                 /\ ty_from_words pe ex TyStrings opt ws = Ok VNone /\ VList (map VStr l) <> VNone.
-  Proof. exists [s_ "None"], [uw (s_ "None")]. repeat split; try reflexivity. discriminate. Qed.
 
   (* ---------------------------------------------------------------- qstr *)
   (* the domain of qstr: texts that are the canonical spelling of their own tokens *)
